@@ -400,6 +400,28 @@ fn check_program(p: &synth::Prog, tt: &BTreeMap<&'static str, Target>, all_targe
                 Err(m) => report(format!("extract_targets:panic:{}", s.join("+")), "returns".into(), m),
             }
         }
+        // mixed sets: a kind together with the kinds that can share its exact location (an expression
+        // statement and its expression, a parenthesis and its operand, a definition and its type)
+        for wrapper in ["Expression", "Parenthesis", "VariableDefinition", "Block", "FunctionDefinition"] {
+            if !present.contains(&wrapper) {
+                continue;
+            }
+            for k in present.iter().filter(|k| **k != wrapper) {
+                // bound the work per root: the kinds rotate with the root index
+                if present.len() > 6 && (k.len() + out.roots as usize) % 3 != 0 {
+                    continue;
+                }
+                let want = filt(&[wrapper, k]);
+                let tv = vec![tt[wrapper], tt[*k]];
+                let got = util::guarded(|| extract_targets_from_node(tv.clone(), root.clone()));
+                out.calls += 1;
+                match got {
+                    Ok(g) if g == want => {}
+                    Ok(g) => report(format!("extract_targets:mixed:{}+{}", wrapper, k), format!("{} nodes", want.len()), format!("{} nodes returned", g.len())),
+                    Err(m) => report(format!("extract_targets:panic:{}+{}", wrapper, k), "returns".into(), m),
+                }
+            }
+        }
         if pairs_mode && class == Class::SourceUnit {
             let names: Vec<&'static str> = tt.keys().copied().collect();
             for a in 0..names.len() {
@@ -417,6 +439,14 @@ fn check_program(p: &synth::Prog, tt: &BTreeMap<&'static str, Target>, all_targe
                         Ok(g) if g == want => {}
                         Ok(g) => report(format!("walk:pair:{}+{}", names[a], names[b]), format!("{} nodes", want.len()), format!("{} nodes", g.len())),
                         Err(m) => report("walk:pair:panic".into(), "returns".into(), m),
+                    }
+                    let tv = vec![tt[names[b]], tt[names[a]]];
+                    let got = util::guarded(|| extract_targets_from_node(tv.clone(), root.clone()));
+                    out.calls += 1;
+                    match got {
+                        Ok(g) if g == want => {}
+                        Ok(g) => report(format!("extract_targets:pair:{}+{}", names[a], names[b]), format!("{} nodes", want.len()), format!("{} nodes", g.len())),
+                        Err(m) => report("extract_targets:pair:panic".into(), "returns".into(), m),
                     }
                 }
             }
